@@ -96,13 +96,13 @@ def plan(prop, tier):
                   ops("pure", ALLF, 60 if q else 500, 3, 120), ops("pure", "latraw", 80 if q else 800, 3, 120), ops("repr", EXACT, 20 if q else 100, 3, 90),
                   ops("history", "cx,cxmix,cxshift,aff-cx", 8 if q else 60, 4, 200)])],
         "C03": [("returns-release", {"C03"}, "any", "release",
-                 [("fixtures",), ("rawcorpus", "ttouch.in"), ("rawcorpus", "runaway.in"), corpus("ttouch_int.ndjson"), ops("single", "latraw", 600 if q else 6000, 3, 120), corpus("ulp.ndjson"), corpus("ulp_frames.ndjson"), corpus("fixed_findings.ndjson"), corpus("hand.ndjson"), corpus("fan_f32.ndjson"),
+                 [("fixtures",), ("rawcorpus", "ttouch.in"), ("rawcorpus", "runaway.in"), corpus("ttouch_int.ndjson"), ("fixedops", "single", "latraw", 600 if q else 18000, 3, 120, 20260927), corpus("ulp.ndjson"), corpus("ulp_frames.ndjson"), corpus("fixed_findings.ndjson"), corpus("hand.ndjson"), corpus("fan_f32.ndjson"),
                   ops("single", ALLF, 400 if q else 4000, 3 if q else 5, 140 if q else 240),
                   ops("deg", EXACT, 60 if q else 400), ops("chain", EXACT, 40 if q else 300, 3, 90),
                   tri(2, 840, 5 if q else 1, 3)]),
                 ("returns-debug-assertions", {"C03"}, "any", "dbg",
                  [("fixtures",), ("rawcorpus", "ttouch.in"), corpus("ttouch_int.ndjson"), corpus("ulp_f32_dbgpass.ndjson"), corpus("fixed_findings.ndjson"), corpus("hand.ndjson"),
-                  ops("single", ALLF, 400 if q else 4000, 3 if q else 5, 140 if q else 240), ops("single", "latraw", 600 if q else 6000, 3, 120),
+                  ops("single", ALLF, 400 if q else 4000, 3 if q else 5, 140 if q else 240), ("fixedops", "single", "latraw", 600 if q else 18000, 3, 120, 20260927),   # general position: a FIXED batch (random exploration meets N1 / N2 / N7 about once in 5000 sessions)
                   ops("deg", EXACT, 60 if q else 400), ops("far", EXACT, 40 if q else 300),
                   tri(2, 840, 5 if q else 1, 4)])],
     }
